@@ -382,6 +382,7 @@ impl<Key, Value> CacheD<Key, Value>
 
         #[cfg(cached_verif)] crate::cache::verif::point("C_Get", 1);
         if let Some(value_ref) = self.store.get_ref(key) {
+            #[cfg(cached_verif)] let _verif_held = crate::cache::verif::lock_held(self.store.verif_lock_id(), 0);
             self.mark_key_accessed(key);
             return Some(value_ref);
         }
@@ -747,6 +748,15 @@ impl<Key, Value> CacheD<Key, Value>
             sweeper_keep_running: self.ttl_ticker.verif_keep_running(),
             consumer_keep_running: self.admission_policy.verif_keep_running(),
         }
+    }
+
+    /// Addresses (as reported by the lock events) and names of the locks of this instance.
+    pub fn verif_lock_ids(&self) -> Vec<(i64, String)> {
+        let mut ids = self.admission_policy.verif_lock_ids();
+        ids.push((self.store.verif_lock_id(), "store".to_string()));
+        ids.extend(self.ttl_ticker.verif_lock_ids());
+        ids.extend(self.pool.verif_lock_ids());
+        ids
     }
 
     /// The frequency estimate admission would use for `key_hash`.
